@@ -75,7 +75,8 @@ inductive Loc where
   | none | queued | actor (a : Nat) | waiting (p : Nat) | finished
 deriving DecidableEq, Repr, Inhabited
 
-def upd {α : Type} (f : Nat → α) (k : Nat) (v : α) : Nat → α := fun x => if x = k then v else f x
+/-- pointwise update. `noinline`: the compiled replayer must evaluate `v` once, before the closure is built -/
+@[noinline] def upd {α : Type} (f : Nat → α) (k : Nat) (v : α) : Nat → α := fun x => if x = k then v else f x
 
 @[simp] theorem upd_same {α} (f : Nat → α) (k v) : upd f k v k = v := by simp [upd]
 @[simp] theorem upd_other {α} (f : Nat → α) (k v x) (h : x ≠ k) : upd f k v x = f x := by simp [upd, h]
@@ -126,7 +127,12 @@ def starter (N : Nat) (s : Sys) (a : Nat) : Option (Option Nat) :=
   | .idle => if N ≤ a then some none else none
   | _ => none
 
-def setProm (s : Sys) (p : Nat) (f : PState → PState) : Nat → PState := upd s.prom p (f (s.prom p))
+/-- `inline`: otherwise the compiler eta-expands it and re-evaluates `f (s.prom p)` on every lookup -/
+@[inline] def setProm (s : Sys) (p : Nat) (f : PState → PState) : Nat → PState := upd s.prom p (f (s.prom p))
+
+/-- location update of `pub`: the settled task is finished, its continuations are in the hands of the settler -/
+@[noinline] def pubLoc (loc : Nat → Loc) (p : Nat) (own : Bool) (cs : List Nat) (a : Nat) : Nat → Loc :=
+  fun c => if c = p ∧ own = true then .finished else if c ∈ cs then .actor a else loc c
 
 /-- erase the first occurrence -/
 def eraseFirst (t : Nat) : List Nat → List Nat
@@ -225,8 +231,7 @@ def stepB (N Q : Nat) (s : Sys) : Event → Option Sys
         some { s with act := upd s.act a (.resEnq p cs)
                       prom := setProm s p (fun q => { q with settled := some r })
                       pubs := upd s.pubs p (s.pubs p + 1)
-                      loc := fun c => if c = p ∧ own = true then .finished
-                                      else if c ∈ cs then .actor a else s.loc c }
+                      loc := pubLoc s.loc p own cs a }
       else none
     | _ => none
   | .enqc a p c =>
